@@ -1,11 +1,16 @@
-"""C18 sessions for libhost_child (T3): one emitted client (sync gRPC | asyncio gRPC | REST) against one
+"""C18 sessions for libhost_child (T3): emitted clients (sync gRPC | asyncio gRPC | REST | rest_asyncio) against one
 loopback server, a store of caller-owned request objects that live for the whole session (so that passing
-object i twice passes the SAME Python object twice), and a list of calls.  Runs INSIDE the child.
+object i twice passes the SAME Python object twice, possibly to two different clients), and a list of calls.
+Runs INSIDE the child.
 
-op: {"op": "c18_session", "kind": "sync"|"asyncio"|"rest", "client": "mod:Cls", "transport": "mod:Cls",
-     "objects": [{"py_request": "mod:Cls", "b64": …}],
-     "calls": [{"method": snake_name, "mode": "inst"|"dict"|"kwargs", "obj": i, "kwargs": {param: str}}]}
-result: {"calls": [{"ok": true | "raised": …, "server": [records], "after": canon of object i after the call}]}
+op: {"op": "c18_session", "kind": "sync"|"asyncio"|"rest"|"rest_asyncio", "client": "mod:Cls", "transport": "mod:Cls",
+     "clients": 1|2,
+     "objects": [{"py_request": "mod:Cls", "values": {field: literal}}            # built as Cls(**values): what a caller writes
+                 | {"py_request": "mod:Cls", "b64": …}],                          # (legacy) rebuilt from bytes
+     "calls": [{"method": snake_name, "mode": "inst"|"dict"|"kwargs"|"none", "obj": i, "kwargs": {param: str},
+                "client": 0|1, "consume": "value"|"pager",
+                "script_grpc": {path: [behaviour…]}, "script_rest": [behaviour…]}]}
+result: {"calls": [{"ok": true | "raised": …, "server": [records], "after": the caller's object i after the call}]}
 """
 import asyncio, traceback
 import libhost_rpc as R
@@ -15,47 +20,122 @@ def _prep(o):
     objs = []
     for ob in o["objects"]:
         cls = R.locate(ob["py_request"])
-        objs.append((cls, R.unb64(ob["b64"]), R.make_instance(cls, R.unb64(ob["b64"]))))
+        if "values" in ob:
+            objs.append((cls, dict(ob["values"]), cls(**ob["values"])))
+        else:
+            data = R.unb64(ob["b64"])
+            objs.append((cls, R.make_dict(cls, data), R.make_instance(cls, data)))
     return objs
 
 
 def _kw(call, objs):
-    cls, data, inst = objs[call["obj"]]
     mode = call["mode"]
+    if mode == "none":
+        return {}
+    if mode == "kwargs":
+        return dict(call.get("kwargs") or {})
+    cls, values, inst = objs[call["obj"]]
     if mode == "inst":
         return {"request": inst}
     if mode == "dict":
-        return {"request": R.make_dict(cls, data)}      # a new dict per call
-    if mode == "kwargs":
-        return dict(call.get("kwargs") or {})
+        return {"request": dict(values)}      # a new literal dict per call
     raise ValueError(mode)
 
 
 def _after(call, objs):
-    return R.canon_msg(objs[call["obj"]][2])
+    if call["mode"] in ("none",):
+        return None
+    cls, values, inst = objs[call["obj"]]
+    try:
+        return cls.to_dict(inst, use_integers_for_enums=True)
+    except BaseException as e:  # noqa
+        return {"raised": R.exc_name(e)}
+
+
+def _install_script(kind, srv, call):
+    if kind in ("rest", "rest_asyncio"):
+        if call.get("script_rest") is not None:
+            srv.script[:] = list(call["script_rest"])
+    elif call.get("script_grpc"):
+        with srv.lock:
+            for p, q in call["script_grpc"].items():
+                srv.script[p] = list(q)
+
+
+def _sync_calls(o, kind, srv, clients, results):
+    objs = _prep(o)
+    for call in o["calls"]:
+        start = len(srv.log)
+        _install_script(kind, srv, call)
+        try:
+            ret = getattr(clients[call.get("client", 0) % len(clients)], call["method"])(**_kw(call, objs))
+            if call.get("consume") == "pager":
+                for _ in ret:
+                    pass
+            res = {"ok": True}
+        except BaseException as e:  # noqa
+            res = {"raised": R.exc_name(e), "msg": str(e)[:300], "trace": traceback.format_exc()[-800:]}
+        res["server"] = srv.log[start:]
+        res["after"] = _after(call, objs)
+        results.append(res)
+
+
+async def _async_calls(o, kind, srv, clients, results):
+    objs = _prep(o)
+    for call in o["calls"]:
+        start = len(srv.log)
+        _install_script(kind, srv, call)
+        try:
+            ret = getattr(clients[call.get("client", 0) % len(clients)], call["method"])(**_kw(call, objs))
+            for _ in range(3):
+                if asyncio.iscoroutine(ret) or hasattr(ret, "__await__"):
+                    ret = await ret
+            if call.get("consume") == "pager":
+                async for _ in ret:
+                    pass
+            res = {"ok": True}
+        except BaseException as e:  # noqa
+            res = {"raised": R.exc_name(e), "msg": str(e)[:300], "trace": traceback.format_exc()[-800:]}
+        res["server"] = srv.log[start:]
+        res["after"] = _after(call, objs)
+        results.append(res)
 
 
 def op_c18_session(o):
     kind = o["kind"]
+    n = int(o.get("clients", 1))
     results = []
     if kind == "rest":
         from google.auth.credentials import AnonymousCredentials
         srv = R.HttpLoopback(None)
         try:
-            transport = R.locate(o["transport"])(host=f"127.0.0.1:{srv.port}", url_scheme="http",
-                                                credentials=AnonymousCredentials())
-            client = R.locate(o["client"])(transport=transport)
-            objs = _prep(o)
-            for call in o["calls"]:
-                start = len(srv.log)
-                try:
-                    getattr(client, call["method"])(**_kw(call, objs))
-                    res = {"ok": True}
-                except BaseException as e:  # noqa
-                    res = {"raised": R.exc_name(e), "msg": str(e)[:300], "trace": traceback.format_exc()[-600:]}
-                res["server"] = srv.log[start:]
-                res["after"] = _after(call, objs)
-                results.append(res)
+            clients = []
+            for _ in range(n):
+                transport = R.locate(o["transport"])(host=f"127.0.0.1:{srv.port}", url_scheme="http",
+                                                    credentials=AnonymousCredentials())
+                clients.append(R.locate(o["client"])(transport=transport))
+            _sync_calls(o, kind, srv, clients, results)
+        finally:
+            srv.stop()
+        return {"calls": results}
+    if kind == "rest_asyncio":
+        from google.auth.aio.credentials import AnonymousCredentials as AioAnonymousCredentials
+        srv = R.HttpLoopback(None)
+        try:
+            async def main():
+                clients, transports = [], []
+                for _ in range(n):
+                    transport = R.locate(o["transport"])(host=f"127.0.0.1:{srv.port}", url_scheme="http",
+                                                        credentials=AioAnonymousCredentials())
+                    transports.append(transport)
+                    clients.append(R.locate(o["client"])(transport=transport))
+                await _async_calls(o, kind, srv, clients, results)
+                for t in transports:
+                    try:
+                        await t.close()
+                    except BaseException:  # noqa
+                        pass
+            asyncio.run(main())
         finally:
             srv.stop()
         return {"calls": results}
@@ -63,41 +143,24 @@ def op_c18_session(o):
     srv = R.GrpcLoopback(None)
     try:
         if kind == "sync":
-            ch = grpc.insecure_channel(f"127.0.0.1:{srv.port}")
-            transport = R.locate(o["transport"])(channel=ch)
-            client = R.locate(o["client"])(transport=transport)
-            objs = _prep(o)
-            for call in o["calls"]:
-                start = len(srv.log)
-                try:
-                    getattr(client, call["method"])(**_kw(call, objs))
-                    res = {"ok": True}
-                except BaseException as e:  # noqa
-                    res = {"raised": R.exc_name(e), "msg": str(e)[:300], "trace": traceback.format_exc()[-600:]}
-                res["server"] = srv.log[start:]
-                res["after"] = _after(call, objs)
-                results.append(res)
-            ch.close()
+            chans, clients = [], []
+            for _ in range(n):
+                ch = grpc.insecure_channel(f"127.0.0.1:{srv.port}")
+                chans.append(ch)
+                clients.append(R.locate(o["client"])(transport=R.locate(o["transport"])(channel=ch)))
+            _sync_calls(o, kind, srv, clients, results)
+            for ch in chans:
+                ch.close()
         elif kind == "asyncio":
             async def main():
-                ch = grpc.aio.insecure_channel(f"127.0.0.1:{srv.port}")
-                transport = R.locate(o["transport"])(channel=ch)
-                client = R.locate(o["client"])(transport=transport)
-                objs = _prep(o)
-                for call in o["calls"]:
-                    start = len(srv.log)
-                    try:
-                        ret = getattr(client, call["method"])(**_kw(call, objs))
-                        for _ in range(3):
-                            if asyncio.iscoroutine(ret) or hasattr(ret, "__await__"):
-                                ret = await ret
-                        res = {"ok": True}
-                    except BaseException as e:  # noqa
-                        res = {"raised": R.exc_name(e), "msg": str(e)[:300], "trace": traceback.format_exc()[-600:]}
-                    res["server"] = srv.log[start:]
-                    res["after"] = _after(call, objs)
-                    results.append(res)
-                await ch.close()
+                chans, clients = [], []
+                for _ in range(n):
+                    ch = grpc.aio.insecure_channel(f"127.0.0.1:{srv.port}")
+                    chans.append(ch)
+                    clients.append(R.locate(o["client"])(transport=R.locate(o["transport"])(channel=ch)))
+                await _async_calls(o, kind, srv, clients, results)
+                for ch in chans:
+                    await ch.close()
             asyncio.run(main())
         else:
             raise ValueError(kind)
